@@ -20,9 +20,9 @@ theorem frame_all (cfg : RCfg) :
   all_goals simp only [renderBlock, renderBlocks, renderItems, Frame]
   all_goals (try (first | exact ⟨rfl, rfl⟩ | exact ⟨trivial, trivial⟩ | (split <;> exact ⟨rfl, rfl⟩)))
   case case2 ih => exact ⟨ih.1, trivial⟩
-  case case3 ih => exact ih
-  case case4 ih => exact ⟨trivial, ih.2⟩
+  case case4 hE ih => simp only [hE, if_false]; exact ih
   case case5 ih => exact ⟨trivial, ih.2⟩
-  case case14 ih => exact ⟨trivial, ih.2⟩
-  case case17 ih1 ih2 => exact ⟨ih2.1.trans ih1.1, ih2.2.trans ih1.2⟩
-  case case19 ih1 ih2 => exact ⟨ih2.1, ih2.2.trans ih1.2⟩
+  case case6 ih => exact ⟨trivial, ih.2⟩
+  case case15 ih => exact ⟨trivial, ih.2⟩
+  case case18 ih1 ih2 => exact ⟨ih2.1.trans ih1.1, ih2.2.trans ih1.2⟩
+  case case20 ih1 ih2 => exact ⟨ih2.1, ih2.2.trans ih1.2⟩
